@@ -28,6 +28,10 @@ type c27RefCtx struct {
 type c27RefSeries struct {
 	labels map[string]string // empty values dropped
 	vals   []float64         // over ctx.grid
+	// tol: absolute tolerance per point (nil = none) for results that are differences of values
+	// (variance family): derived from the conditioning of the two-pass formula on the inputs of
+	// that point, NOT from the magnitude of the values
+	tol []float64
 }
 
 func c27LabelKey(l map[string]string) string {
@@ -205,6 +209,8 @@ func (w *c27Wrap) text() string {
 		return "abs(" + w.inner.text() + ")"
 	case "neg":
 		return "-" + w.inner.text()
+	case "subbig":
+		return "(" + w.inner.text() + " - 1700000000)"
 	}
 	return "(" + w.inner.text() + ")"
 }
@@ -218,6 +224,8 @@ func (w *c27Wrap) eval(ctx *c27RefCtx) []c27RefSeries {
 				in[i].vals[j] = math.Abs(v)
 			case "neg":
 				in[i].vals[j] = -v
+			case "subbig":
+				in[i].vals[j] = v - 1700000000
 			}
 		}
 	}
@@ -237,7 +245,14 @@ type c27OverTime struct {
 func (o *c27OverTime) text() string {
 	arg := o.inner.text()
 	if o.subquery {
-		if _, isSel := o.inner.(*c27Sel); isSel {
+		needParen := false
+		switch x := o.inner.(type) {
+		case *c27Sel:
+			needParen = true
+		case *c27Wrap:
+			needParen = x.kind == "sub0" || x.kind == "mul1" || x.kind == "neg"
+		}
+		if needParen {
 			arg = "(" + arg + ")"
 		}
 		arg += fmt.Sprintf("[%ds:]", o.rng)
@@ -281,6 +296,44 @@ func c27Quantile(phi float64, vs []float64) float64 {
 	return s[int(lo)]*(1-w) + s[int(hi)]*w
 }
 
+const c27Eps = 2.220446049250313e-16
+
+// c27VarTol: how far a correct (two-pass) population variance of vs may be from the exact one:
+// 1e-6 relative to the true result, plus the square of the rounding error of the mean
+// (n*eps*max|x|), plus the rounding of the squared deviations.  inTol is the tolerance the
+// inputs themselves carry.
+func c27VarTol(vs []float64, v, inTol float64) float64 {
+	n := float64(len(vs))
+	var mean, maxAbs, maxDev float64
+	for _, x := range vs {
+		mean += x / n
+		maxAbs = math.Max(maxAbs, math.Abs(x))
+	}
+	for _, x := range vs {
+		maxDev = math.Max(maxDev, math.Abs(x-mean))
+	}
+	d := n * c27Eps * maxAbs
+	return 1e-6*v + 4*d*d + 64*c27Eps*n*maxDev*maxDev + 2*inTol*maxDev + inTol*inTol
+}
+
+// c27SumTol: rounding of a sum (or mean) of vs whatever the order of the additions.
+func c27SumTol(vs []float64) float64 {
+	var a float64
+	for _, x := range vs {
+		a += math.Abs(x)
+	}
+	return float64(len(vs)+1) * c27Eps * a
+}
+
+// c27SdTol converts a tolerance of the variance into one of the standard deviation.
+func c27SdTol(tolVar, sd float64) float64 {
+	t := math.Sqrt(tolVar)
+	if sd > 0 && tolVar/sd < t {
+		t = tolVar / sd
+	}
+	return t
+}
+
 func c27StdVar(vs []float64) float64 {
 	var mean float64
 	for _, v := range vs {
@@ -300,21 +353,28 @@ func (o *c27OverTime) eval(ctx *c27RefCtx) []c27RefSeries {
 	for i := range in {
 		src := in[i].vals
 		dst := make([]float64, len(src))
+		dtol := make([]float64, len(src))
 		for t := range src {
 			if t-w+1 < 0 {
 				dst[t] = math.NaN() // window not inside the data
 				continue
 			}
 			var vs []float64
+			var tolSum, tolMax float64
 			for x := t - w + 1; x <= t; x++ {
 				if !math.IsNaN(src[x]) {
 					vs = append(vs, src[x])
+					if in[i].tol != nil {
+						tolSum += in[i].tol[x]
+						tolMax = math.Max(tolMax, in[i].tol[x])
+					}
 				}
 			}
 			if len(vs) == 0 {
 				dst[t] = math.NaN()
 				continue
 			}
+			dtol[t] = tolMax
 			switch o.fn {
 			case "sum_over_time":
 				var s float64
@@ -322,12 +382,14 @@ func (o *c27OverTime) eval(ctx *c27RefCtx) []c27RefSeries {
 					s += v
 				}
 				dst[t] = s
+				dtol[t] = tolSum + c27SumTol(vs)
 			case "avg_over_time":
 				var s float64
 				for _, v := range vs {
 					s += v
 				}
 				dst[t] = s / float64(len(vs))
+				dtol[t] = tolMax + c27SumTol(vs)/float64(len(vs))
 			case "min_over_time":
 				m := vs[0]
 				for _, v := range vs {
@@ -344,19 +406,24 @@ func (o *c27OverTime) eval(ctx *c27RefCtx) []c27RefSeries {
 				dst[t] = float64(len(vs))
 			case "stdvar_over_time":
 				dst[t] = c27StdVar(vs)
+				dtol[t] = c27VarTol(vs, dst[t], tolMax)
 			case "stddev_over_time":
-				dst[t] = math.Sqrt(c27StdVar(vs))
+				v := c27StdVar(vs)
+				dst[t] = math.Sqrt(v)
+				dtol[t] = c27SdTol(c27VarTol(vs, v, tolMax), dst[t])
 			case "last_over_time":
 				dst[t] = vs[len(vs)-1]
 			case "present_over_time":
 				dst[t] = 1
 			case "quantile_over_time":
 				dst[t] = c27Quantile(o.phi, vs)
+				dtol[t] = tolMax + 8*c27Eps*math.Abs(dst[t])
 			default:
 				panic("c27: unknown over-time function " + o.fn)
 			}
 		}
 		in[i].vals = dst
+		in[i].tol = dtol
 	}
 	return in
 }
@@ -450,18 +517,24 @@ func (a *c27AggNode) eval(ctx *c27RefCtx) []c27RefSeries {
 			res = append(res, a.selectK(ctx, in, g.members)...)
 			continue
 		}
-		out := c27RefSeries{labels: g.labels, vals: make([]float64, n)}
+		out := c27RefSeries{labels: g.labels, vals: make([]float64, n), tol: make([]float64, n)}
 		for t := 0; t < n; t++ {
 			var vs []float64
+			var tolSum, tolMax float64
 			for _, m := range g.members {
 				if v := in[m].vals[t]; !math.IsNaN(v) {
 					vs = append(vs, v)
+					if in[m].tol != nil {
+						tolSum += in[m].tol[t]
+						tolMax = math.Max(tolMax, in[m].tol[t])
+					}
 				}
 			}
 			if len(vs) == 0 {
 				out.vals[t] = math.NaN()
 				continue
 			}
+			out.tol[t] = tolMax
 			switch a.op {
 			case "sum":
 				var s float64
@@ -469,12 +542,14 @@ func (a *c27AggNode) eval(ctx *c27RefCtx) []c27RefSeries {
 					s += v
 				}
 				out.vals[t] = s
+				out.tol[t] = tolSum + c27SumTol(vs)
 			case "avg":
 				var s float64
 				for _, v := range vs {
 					s += v
 				}
 				out.vals[t] = s / float64(len(vs))
+				out.tol[t] = tolMax + c27SumTol(vs)/float64(len(vs))
 			case "min":
 				m := vs[0]
 				for _, v := range vs {
@@ -493,10 +568,16 @@ func (a *c27AggNode) eval(ctx *c27RefCtx) []c27RefSeries {
 				out.vals[t] = 1
 			case "stdvar":
 				out.vals[t] = c27StdVar(vs)
+				out.tol[t] = c27VarTol(vs, out.vals[t], tolMax)
 			case "stddev":
-				out.vals[t] = math.Sqrt(c27StdVar(vs))
+				v := c27StdVar(vs)
+				out.vals[t] = math.Sqrt(v)
+				out.tol[t] = c27SdTol(c27VarTol(vs, v, tolMax), out.vals[t])
 			case "quantile":
 				out.vals[t] = c27Quantile(a.param, vs)
+				if !math.IsInf(out.vals[t], 0) {
+					out.tol[t] = tolMax + 8*c27Eps*math.Abs(out.vals[t])
+				}
 			default:
 				panic("c27: unknown aggregation " + a.op)
 			}
@@ -517,4 +598,19 @@ func (a *c27AggNode) selectK(_ *c27RefCtx, in []c27RefSeries, members []int) []c
 		res = append(res, in[m])
 	}
 	return res
+}
+
+// ---- time(): one series without labels whose value is the timestamp (large values, spread of
+// a few steps inside a window)
+
+type c27TimeNode struct{}
+
+func (*c27TimeNode) text() string { return "time()" }
+
+func (*c27TimeNode) eval(ctx *c27RefCtx) []c27RefSeries {
+	sr := c27RefSeries{labels: map[string]string{}, vals: make([]float64, len(ctx.grid))}
+	for i, t := range ctx.grid {
+		sr.vals[i] = float64(t)
+	}
+	return []c27RefSeries{sr}
 }
